@@ -434,10 +434,18 @@ impl C11 {
             dst: 2,
             ident: rng.u32() & 0xffff,
             proto: *rng.pick(&[17u8, 6, 1, 58, 253, 47]),
-            vlans: match rng.below(4) {
-                0 => vec![rng.u16() & 0x0fff],
-                1 => vec![rng.u16() & 0x0fff, rng.u16() & 0x0fff],
-                _ => vec![],
+            vlans: {
+                // VLAN id 0 (a priority tag) is a tag like any other for the stream key
+                let vid = |rng: &mut Prng| match rng.below(4) {
+                    0 => 0u16,
+                    1 => *rng.pick(&[1u16, 0x0fff]),
+                    _ => rng.u16() & 0x0fff,
+                };
+                match rng.below(4) {
+                    0 => vec![vid(rng)],
+                    1 => vec![vid(rng), vid(rng)],
+                    _ => vec![],
+                }
             },
             channel: 0,
         };
@@ -450,10 +458,18 @@ impl C11 {
                 2 => v.ident = base.ident ^ 1,
                 3 => v.proto = if base.proto == 17 { 6 } else { 17 },
                 4 => {
-                    if v.vlans.is_empty() {
-                        v.vlans.push(5)
-                    } else {
-                        v.vlans[0] ^= 1
+                    // tagged vs untagged (also with the priority tag, id 0), one tag more / fewer, another id
+                    match (v.vlans.len(), rng.below(3)) {
+                        (0, 0) => v.vlans.push(5),
+                        (0, _) => v.vlans.push(0),
+                        (1, 0) => v.vlans.push(0),
+                        (2, 0) => {
+                            v.vlans.pop();
+                        }
+                        (_, 1) => {
+                            v.vlans.remove(0);
+                        }
+                        _ => v.vlans[0] ^= 1,
                     }
                 }
                 5 => v.channel = 1,
